@@ -148,6 +148,9 @@ func (ev *Evaluator) stmt(env *Env, s ast.Stmt) ctrl {
 		if c, ok := ch.(*ChanVal); ok {
 			name = c.Name
 			c.Sent = append(c.Sent, v)
+			if c.Queue {
+				c.Feed = append(c.Feed, v)
+			}
 		}
 		ev.Sent = append(ev.Sent, SendRec{Chan: name, V: v, Pos: s.Pos()})
 		if len(ev.loops) > 0 {
@@ -156,6 +159,17 @@ func (ev *Evaluator) stmt(env *Env, s ast.Stmt) ctrl {
 				lc.cur.Sent = append(lc.cur.Sent, SendRec{Chan: name, V: v, Pos: s.Pos()})
 			}
 		}
+	case *ast.GoStmt:
+		if !ev.Pipeline {
+			ev.fail(s.Pos(), "go statement outside the sequential pipeline model")
+		}
+		ev.Spawned = append(ev.Spawned, s.Pos())
+		ev.prepareCall(env, s.Call)()
+	case *ast.SelectStmt:
+		if !ev.Pipeline {
+			ev.fail(s.Pos(), "select statement outside the sequential pipeline model")
+		}
+		return ev.selectStmt(env, s)
 	case *ast.DeferStmt:
 		// function value, receiver and arguments are evaluated now; the call runs when the enclosing
 		// function returns. Close on a file handle without a registered model has no modelled effect.
@@ -363,6 +377,82 @@ func (ev *Evaluator) switchStmt(env *Env, s *ast.SwitchStmt) ctrl {
 	return ctrl{}
 }
 
+// selectStmt (pipeline mode): the first receive case whose channel has a value pending is taken; with none
+// pending the default clause runs, and without one the select would block - undecided.
+func (ev *Evaluator) selectStmt(env *Env, s *ast.SelectStmt) ctrl {
+	var deflt *ast.CommClause
+	for _, cl := range s.Body.List {
+		cc := cl.(*ast.CommClause)
+		if cc.Comm == nil {
+			deflt = cc
+			continue
+		}
+		var recv *ast.UnaryExpr
+		var lhs []ast.Expr
+		var define bool
+		switch st := cc.Comm.(type) {
+		case *ast.ExprStmt:
+			recv, _ = unparen(st.X).(*ast.UnaryExpr)
+		case *ast.AssignStmt:
+			recv, _ = unparen(st.Rhs[0]).(*ast.UnaryExpr)
+			lhs, define = st.Lhs, st.Tok == token.DEFINE
+		case *ast.SendStmt:
+			ev.fail(cc.Pos(), "send case in a select")
+		}
+		if recv == nil || recv.Op != token.ARROW {
+			ev.fail(cc.Pos(), "unsupported select case")
+		}
+		ch, ok := ev.expr(env, recv.X).(*ChanVal)
+		if !ok {
+			ev.fail(cc.Pos(), "select on an unknown channel")
+		}
+		if ch.Pending() == 0 && !ch.Closed {
+			continue
+		}
+		var v Value
+		okv := true
+		if ch.Pending() > 0 {
+			v = ch.Feed[ch.pos]
+			ch.pos++
+		} else {
+			ct, _ := env.pkg.TypesInfo.TypeOf(recv.X).Underlying().(*types.Chan)
+			v = ev.zero(cc.Pos(), ct.Elem())
+			okv = false
+		}
+		cenv := env.child()
+		for i, l := range lhs {
+			val := v
+			if i == 1 {
+				val = okv
+			}
+			if id, isID := l.(*ast.Ident); isID && id.Name == "_" {
+				continue
+			}
+			if define {
+				if obj := env.pkg.TypesInfo.Defs[l.(*ast.Ident)]; obj != nil {
+					cenv.define(obj, val)
+				}
+			} else {
+				ev.lvalue(cenv, l).Set(val)
+			}
+		}
+		c := ev.block(cenv, cc.Body)
+		if c.kind == ctrlBreak && c.label == "" {
+			return ctrl{}
+		}
+		return c
+	}
+	if deflt != nil {
+		c := ev.block(env.child(), deflt.Body)
+		if c.kind == ctrlBreak && c.label == "" {
+			return ctrl{}
+		}
+		return c
+	}
+	ev.fail(s.Pos(), "select would block: no case has a value pending in the sequential pipeline model")
+	return ctrl{}
+}
+
 // typeAssert: x.(T) for an error value whose dynamic type is known (ErrVal.Dyn) or nil.
 func (ev *Evaluator) typeAssert(env *Env, e *ast.TypeAssertExpr) (Value, bool) {
 	v := ev.resolve(ev.expr(env, e.X))
@@ -374,6 +464,14 @@ func (ev *Evaluator) typeAssert(env *Env, e *ast.TypeAssertExpr) (Value, bool) {
 	want := types.TypeString(tv.Type, nil)
 	switch xv := v.(type) {
 	case Nil:
+		return ev.zero(e.Pos(), tv.Type), false
+	case *Handle:
+		if xv.Dyn == want {
+			return xv, true
+		}
+		if _, isIface := tv.Type.Underlying().(*types.Interface); isIface {
+			ev.fail(e.Pos(), "type assertion to an interface type")
+		}
 		return ev.zero(e.Pos(), tv.Type), false
 	case ErrVal:
 		if xv.Dyn == "" {
@@ -415,6 +513,8 @@ func (ev *Evaluator) typeSwitch(env *Env, s *ast.TypeSwitchStmt) ctrl {
 	case Nil:
 		dyn = "nil"
 	case ErrVal:
+		dyn = xv.Dyn
+	case *Handle:
 		dyn = xv.Dyn
 	}
 	if dyn == "" {
